@@ -41,9 +41,16 @@ class Res(wiring.Component):
 
 
 class EmptyRes(Res):
-    """a resource object that is FALSY (a container-like component with nothing in it): still a resource"""
+    """a resource object that is FALSY (a container-like component with nothing in it) and that compares EQUAL to every
+    other object of its class (value equality): still a distinct resource - the maps go by identity"""
     def __len__(self):
         return 0
+
+    def __eq__(self, other):
+        return type(other) is EmptyRes
+
+    def __hash__(self):
+        return 7
 
 
 def M(aw, dw, al, *items):
@@ -103,7 +110,7 @@ def harness_for(cfg):
 
     def h(E):
         ctr = [0]
-        stranger = Res()
+        stranger = EmptyRes()          # never added, but EQUAL (==) to resources that were
         oracle = []        # (resource, start, end, width, path) in ROOT coordinates, filled bottom-up
 
         def build(spec):
@@ -142,7 +149,7 @@ def harness_for(cfg):
                 ctr[0] += 1
                 n = ctr[0]
                 if it["t"] == "res":
-                    r = EmptyRes() if n % 2 else Res()
+                    r = EmptyRes() if (n % 2 or n % 3 == 0) else Res()
                     addr = E.int(f"a{n}", 0, top) if it["mode"] == "sym" else None
                     size = E.int(f"z{n}", 0, top)
                     try:
